@@ -156,11 +156,24 @@ def run_value(ctx, spec, t, v):
     try:
         text, kind, x = roundtrip(m, spec, t, v)
     except Exception as e:
-        ctx.violation('C05 dumps-raised %s %s' % (type(e).__name__,
-                                                  H.exc_site(e)),
-                      'dumps raised %s: %s for %s' % (
-                          type(e).__name__, str(e)[:200],
-                          c06.short(V.vdigest(v))), case)
+        mech = ''
+        if has_shared(enc):
+            # PyYAML represents an object referenced twice by one node; a
+            # sweetener that rewrites nodes in place (seq_attribute_to_map
+            # strips the key attribute from the item nodes) then finds the
+            # node already rewritten: the alias mechanism on the dump side
+            try:
+                v2 = unshare(m, v)
+                t2, k2, x2 = roundtrip(m, spec, t, v2)
+                if k2 == 'ok' and V.vsame(x2, v2):
+                    mech = ' only-with-shared-objects(alias-mechanism)'
+            except Exception:
+                pass
+        ctx.violation('C05 dumps-raised %s %s%s' % (
+            type(e).__name__, H.exc_site(e), mech),
+            'dumps raised %s: %s for %s' % (
+                type(e).__name__, str(e)[:200],
+                c06.short(V.vdigest(v))), case)
         return
     ctx.count('roundtrips')
     shared = has_shared(enc)
